@@ -181,6 +181,11 @@ def gen_catalogue(seed):
             cfg["classes"] = []
             cfg["procs"] = t.pick(["none", "record"], "procs")
         cfgs.append(cfg)
+    cfgs.append({"template": "items", "memoization": False, "autokwd": False, "ignore_case": False,
+                 "auto_init_attributes": True, "textx_tools_support": False, "use_regexp_group": False,
+                 "skipws": True, "ws": None, "global_repository": False, "provider": "default",
+                 "classes": [("Box", "plain"), ("Wrap", "plain"), ("Model", "plain")], "procs": "triple", "model_processor": False,
+                 "shared_classes": True})
     for gr in (False, True):
         cfgs.append({"template": "items", "memoization": False, "autokwd": False, "ignore_case": False,
                      "auto_init_attributes": True, "textx_tools_support": False, "use_regexp_group": False,
@@ -282,7 +287,10 @@ def gen_catalogue(seed):
             "shapes": [{"kind": "shapes", "text": x} for x in SHAPES_INPUTS]}
 
 
-def build_metamodel(cfg):
+def build_metamodel(cfg, shared=None):
+    """shared: a per-history dict; a configuration with `shared_classes` hands the *same* user classes to every
+    metamodel built from it in that history (an application that keeps its classes at module level and builds a
+    metamodel per request) - the older metamodels have to go on working."""
     kw = {k: cfg[k] for k in ("memoization", "autokwd", "ignore_case", "auto_init_attributes",
                               "textx_tools_support", "use_regexp_group", "skipws")}
     if cfg["ws"] is not None:
@@ -296,7 +304,10 @@ def build_metamodel(cfg):
         if cfg["procs"] == "record":
             mm.register_obj_processors({"Word": lambda o: None, "Num": lambda o: None, "INT": lambda x: int(x)})
         return mm
-    classes = [make_class(n, v, NullRec()) for n, v in cfg["classes"]]
+    if cfg.get("shared_classes") and shared is not None:
+        classes = shared.setdefault(id(cfg), [make_class(n, v, NullRec()) for n, v in cfg["classes"]])
+    else:
+        classes = [make_class(n, v, NullRec()) for n, v in cfg["classes"]]
     if classes:
         kw["classes"] = classes
     mm = metamodel_from_str(items_grammar(), **kw)
@@ -329,6 +340,15 @@ def build_metamodel(cfg):
         procs["Tag"] = lambda x: x.upper()
     if cfg["procs"] == "replace":
         procs["Wrap"] = lambda o: "wrapped:" + o.inner.name
+    if cfg["procs"] == "triple":
+        # not idempotent: applied once per object it gives 3v+1, applied twice something else
+        def triple(o):
+            o.v = (o.v or 0) * 3 + 1
+        procs["Def"] = triple
+
+        def mark(o):
+            o.name = o.name + "!"
+        procs["Inner"] = mark  # the Inner of a Wrap: an attribute of a (shared) user class typed with a plain common rule
     if cfg["procs"] == "boom":
         def defproc(o):
             if o.name == "boom":
@@ -507,7 +527,11 @@ def run(ctx):
         raise RuntimeError("prepare() was not called")
     ncfg = len(CAT["cfgs"])
     pool = [t.draw(ncfg, "pool-cfg") for _ in range(2 + t.draw(3, "pool-size"))]
+    for ci_ in list(pool):
+        if CAT["cfgs"][ci_].get("shared_classes") and pool.count(ci_) == 1:
+            pool.append(ci_)  # two metamodels of this configuration live side by side (and share their classes)
     slots = {}  # slot -> (cfg index, metamodel)
+    shared = {}  # user classes shared by all metamodels of a configuration in this history
     nops = 4 + t.draw(21, "nops")
     hist = []
     sigs = []
@@ -531,7 +555,7 @@ def run(ctx):
             ctx.fired("invalid-grammar")
             continue
         if k == 1 or slot not in slots:
-            slots[slot] = (ci, build_metamodel(cfg))
+            slots[slot] = (ci, build_metamodel(cfg, shared))
             ctx.ev("new-metamodel", slot, ci)
             hist.append(["new-metamodel", slot, ci])
             if k == 1:
